@@ -33,8 +33,10 @@ def ensureNewline (cs : List Char) : List Char :=
 /-! ### LexerHelper / get_err_pos (positions are byte offsets into the uncommented text) -/
 /-- chars with their byte offsets (LALRPOP positions and, since the repair, LexerHelper positions are
     byte offsets of the UTF-8 text) -/
-def withOffsets (cs : List Char) : List (Char × Nat) :=
-  (cs.foldl (fun (acc : List (Char × Nat) × Nat) c => ((c, acc.2) :: acc.1, acc.2 + c.utf8Size)) ([], 0)).1.reverse
+def withOffsetsFrom : Nat → List Char → List (Char × Nat)
+  | _, [] => []
+  | n, c :: cs => (c, n) :: withOffsetsFrom (n + c.utf8Size) cs
+def withOffsets (cs : List Char) : List (Char × Nat) := withOffsetsFrom 0 cs
 
 def newlineList (cs : List Char) : List Nat :=
   (withOffsets cs).filterMap fun (c, i) => if c == '\n' then some i else none
